@@ -58,10 +58,6 @@ STRICT_WRAPPER = bool(os.environ.get("VERIF_C09_STRICT_WRAPPER"))
 
 
 # =============================================================================== builders
-def _params(**kw):
-    return kw
-
-
 def _run_v2_builder(out, impl, recs, codec, opts, bs):
     """Drive one v2 builder like BatchBuilder does.  -> (bytes, accepted records) or None."""
     nm = impl.name
@@ -126,6 +122,9 @@ def _run_v2_builder(out, impl, recs, codec, opts, bs):
                 bad("accepted_over_limit", {"index": i, "size": size_ref, "needed": need_ref, "batch_size": bs})
             if i > 0 and size_ref + need_ref == bs:
                 out.label("boundary_equal_accepted")
+            for L in rc.BOUNDARY_LENS[:4]:
+                if need_ref == L + len(R.enc_varint(L)):
+                    out.label("record_len_%d" % L)
             if est < rc.V2_HEADER_SIZE + need_ref:
                 bad("estimate_not_upper_bound", {"index": i, "estimate": est,
                                                  "batch_with_record": rc.V2_HEADER_SIZE + need_ref})
@@ -449,6 +448,14 @@ def _family(impl_list, obj):
     return None
 
 
+def _standalone_ok(im, e):
+    try:
+        objs = rc.drain_memory_records(im.MemoryRecords(e.data))
+        return len(objs) == 1 and not rc.compare_read(rc.read_batch(objs[0], e.magic), e.want)
+    except Exception:
+        return False
+
+
 def _check_entries(out, entries, tail, readers=None, **params):
     """cross_decode on every entry with every reader, concat on the whole buffer with every
     MemoryRecords implementation."""
@@ -482,10 +489,12 @@ def _check_entries(out, entries, tail, readers=None, **params):
     for im in ims:
         def cfail(what, detail, idx=None):
             site = "%s.%s" % (im.name, what)
-            if mixed and idx is not None and entries[idx].magic != magics[0]:
-                # entry whose format differs from the first entry of the buffer
+            if (mixed and idx is not None and entries[idx].magic != magics[0]
+                    and _standalone_ok(im, entries[idx])):
+                # the entry decodes correctly when it is alone in a buffer: the failure is due
+                # to its position behind an entry of another format
                 site = "%s.mixed_magic" % im.name
-                detail = dict(detail, what=what)
+                detail = dict(detail, what=what, entry_magic=entries[idx].magic)
             out.fail("concat", site, dict(detail, magics=magics, tail=len(tail)),
                      reader=im.name, mixed=mixed, **params)
         try:
@@ -865,19 +874,17 @@ def _strat_mixed():
 def campaigns(tier):
     from vlib.runner import Campaign
     th = tier == "thorough"
+
+    def C(name, execute, strategy, quick, thorough, wall_q=40, wall_t=2400):
+        # max_wall only bounds pathological slowness (reported as inconclusive remainder)
+        return Campaign(name, "hyp", execute=execute, strategy=strategy, examples=thorough if th else quick,
+                        max_wall=wall_t if th else wall_q, shrink_wall=20.0)
     return [
-        Campaign("build", "hyp", execute=exec_build, strategy=_strat_build,
-                 examples=60000 if th else 3200),
-        Campaign("build_huge", "hyp", execute=exec_build, strategy=lambda: _strat_build(True),
-                 examples=320 if th else 32, max_wall=900 if th else 60),
-        Campaign("ref_decode", "hyp", execute=exec_decode, strategy=_strat_decode,
-                 examples=30000 if th else 1800),
-        Campaign("concat_mixed", "hyp", execute=exec_decode, strategy=_strat_mixed,
-                 examples=8000 if th else 480),
-        Campaign("build_purepy", "hyp", execute=exec_build_purepy, strategy=_strat_build,
-                 examples=12000 if th else 640),
-        Campaign("ref_decode_purepy", "hyp", execute=exec_decode_purepy, strategy=_strat_decode,
-                 examples=6000 if th else 320),
-        Campaign("concat_mixed_purepy", "hyp", execute=exec_decode_purepy, strategy=_strat_mixed,
-                 examples=2000 if th else 160),
+        C("build", exec_build, _strat_build, 3200, 60000, wall_q=50),
+        C("build_huge", exec_build, lambda: _strat_build(True), 64, 400, wall_t=1200),
+        C("ref_decode", exec_decode, _strat_decode, 1800, 30000),
+        C("concat_mixed", exec_decode, _strat_mixed, 480, 8000),
+        C("build_purepy", exec_build_purepy, _strat_build, 640, 12000),
+        C("ref_decode_purepy", exec_decode_purepy, _strat_decode, 320, 6000),
+        C("concat_mixed_purepy", exec_decode_purepy, _strat_mixed, 160, 2000),
     ]
